@@ -6,6 +6,7 @@ import (
 	"os"
 	"testing"
 
+	eventbus "github.com/jilio/ebu"
 	"pgregory.net/rapid"
 
 	"ebusim/core"
@@ -44,6 +45,12 @@ type C07Scenario struct {
 	// point - before dispatch, between the publisher's check and the start of an async delivery, while a
 	// delivery waits for its turn - and not only during a handler.
 	ExtCancel bool `json:"ext_cancel,omitempty"`
+	// ViaReplay: the bus is persistent, Stored events are published before anybody subscribes, and the
+	// handlers under test are resumable subscriptions (SubscribeWithReplay with their options) made by a
+	// task of their own while the publishers run. Invocations of a Sequential one must not overlap, whether
+	// they come from the replay or from live publishes. (Which events it sees is C12's business, not checked here.)
+	ViaReplay bool `json:"via_replay,omitempty"`
+	Stored    int  `json:"stored,omitempty"`
 }
 
 func genC07(rt *rapid.T) core.Scenario {
@@ -84,6 +91,13 @@ func genC07(rt *rapid.T) core.Scenario {
 	}
 	sc.SlowFirst = rapid.IntRange(0, 2).Draw(rt, "slowFirst") == 2
 	sc.ExtCancel = sc.CancelEvery > 0 && rapid.Bool().Draw(rt, "extCancel")
+	if rapid.IntRange(0, 5).Draw(rt, "viaReplay") == 5 {
+		sc.ViaReplay, sc.ViaAny, sc.CancelEvery, sc.ExtCancel = true, false, 0, false
+		sc.Stored = rapid.IntRange(1, 5).Draw(rt, "stored")
+		for i := range sc.Regs {
+			sc.Regs[i].PanicOn = nil
+		}
+	}
 	sc.Tape = core.DrawTape(rt, 600)
 	return sc
 }
@@ -101,7 +115,11 @@ func (sc *C07Scenario) Execute(t *testing.T) *core.Outcome {
 	overlaps := 0
 	contended := 0
 	body := func() {
-		w = NewWorld()
+		if sc.ViaReplay {
+			w = NewWorld(eventbus.WithStore(eventbus.NewMemoryStore()))
+		} else {
+			w = NewWorld()
+		}
 		calls := map[int]int{}
 		cancelFn := map[int]context.CancelFunc{}
 		w.OnInvoke = func(ti, fn, uid int, ctx context.Context, id int) {
@@ -158,10 +176,33 @@ func (sc *C07Scenario) Execute(t *testing.T) *core.Outcome {
 				return
 			}
 		}
-		for _, r := range sc.Regs {
-			if err := w.Subscribe(sc.Type, r.Fn, r.Opts); err != nil {
-				out.HarnessErr = err.Error()
-				return
+		for i := 0; i < sc.Stored; i++ {
+			ops.Pub(w, context.Background(), 9000+i)
+		}
+		var subscriber *simrt.Task
+		if sc.ViaReplay {
+			subscriber = simrt.GoNamed("subscriber", func() {
+				for ri, r := range sc.Regs {
+					fn := r.Fn
+					var so []eventbus.SubscribeOption
+					if r.Opts.Async {
+						so = append(so, eventbus.Async())
+					}
+					if r.Opts.Seq {
+						so = append(so, eventbus.Sequential())
+					}
+					if err := ops.SubReplay(w, context.Background(), fmt.Sprintf("c07-%d", ri), func(id int) { w.OnInvoke(sc.Type, fn, 0, nil, id) }, so...); err != nil {
+						out.HarnessErr = err.Error()
+						return
+					}
+				}
+			})
+		} else {
+			for _, r := range sc.Regs {
+				if err := w.Subscribe(sc.Type, r.Fn, r.Opts); err != nil {
+					out.HarnessErr = err.Error()
+					return
+				}
 			}
 		}
 		if sc.CancelEvery > 0 && !sc.ExtCancel {
@@ -200,6 +241,7 @@ func (sc *C07Scenario) Execute(t *testing.T) *core.Outcome {
 			}))
 		}
 		simrt.Join(tasks...)
+		simrt.Join(subscriber)
 		w.Bus.Wait()
 	}
 	rep, herr := core.Sim(t, &sc.Base, nil, body)
@@ -236,6 +278,9 @@ func (sc *C07Scenario) Execute(t *testing.T) *core.Outcome {
 		}
 	}
 	for ri, r := range sc.Regs {
+		if sc.ViaReplay {
+			break // overlap is checked while the run proceeds; the delivery sets of resumable subscriptions are C12's
+		}
 		// events whose context was cancelled mid-publish may or may not have been delivered: compare the others
 		var kept []int
 		for _, id := range seen[ri] {
